@@ -25,6 +25,8 @@ class BVal:
                 tot = tot + L
             elif p[0] == "const":
                 tot = tot + len(p[1])
+            elif p[0] == "fixed":
+                tot = tot + p[1]
             elif p[0] == "zeros":
                 if p[1].is_const() and p[1].const_value() >= 0:
                     tot = tot + p[1]
@@ -117,6 +119,11 @@ class WriteAnalysis:
         if isinstance(n, ast.Subscript):
             self.slices.append(n)
             return BVal([("other", norm(n))])
+        if isinstance(n, ast.Call) and norm(n.func) == "struct.pack" and n.args and isinstance(n.args[0], ast.JoinedStr) and norm(n.args[0]).replace(" ", "") == f"f'{{{self.size_p}}}s'":
+            # struct.pack(f"{size}s", x): always exactly `size` bytes - x is zero-padded OR SILENTLY TRUNCATED
+            for a in n.args[1:]:
+                self.bval(a)
+            return BVal([("fixed", self.S, "struct.pack pads or truncates to the field width")])
         if isinstance(n, ast.Call) and isinstance(n.func, ast.Attribute) and n.func.attr in ("ljust", "rjust", "center") and len(n.args) >= 1:
             return BVal([("other", norm(n))])
         return None
